@@ -1,0 +1,11 @@
+//go:build verif
+// +build verif
+
+package pbutil
+
+//@ property C05
+
+// protobuf decoding into the object the interface holds a pointer to; panics on error (assumed contract)
+//@ func MustUnmarshal(um Unmarshaler, data []byte)
+//@   trusted protobuf Unmarshal (third-party generated code); only the pointee changes
+//@   modifies pointee(um)
